@@ -223,6 +223,17 @@ func genLaunch(r *rand.Rand, t core.Tier) any {
 			}
 		}
 	}
+	// daemonsets that split the instance types: each selects ONE instance type and they request different amounts, none has a
+	// running pod yet (the scheduler gets template-synthesized daemon pods), so that instance types admit different daemon
+	// sets of the same size
+	if len(s.ITs) >= 2 && r.Float64() < 0.2 {
+		perm := r.Perm(len(s.ITs))
+		s.DaemonSets = s.DaemonSets[:0:0]
+		for i := 0; i < 2+r.IntN(min(2, len(s.ITs)-1)); i++ {
+			s.DaemonSets = append(s.DaemonSets, world.DaemonSet{Name: fmt.Sprintf("ds-split-%d", i), CPU: int64(100 + 300*i + 100*r.IntN(3)), Mem: int64(64 * (1 + i)),
+				NodeSelector: map[string]string{"node.kubernetes.io/instance-type": s.ITs[perm[i]].Name}, Tolerations: []world.Toleration{{Operator: "Exists"}}})
+		}
+	}
 	in := LaunchIn{Scenario: s}
 	// a quarter of the passes run out of time after some pods have been placed
 	if x := r.Float64(); x < 0.12 {
